@@ -272,7 +272,12 @@ class PathWalker:
                 yield from cont(conds, env, calls)
                 return
             v = strip_cast(value)
-            if isinstance(v, ast.Call) and depth < self.inline_depth and len(targets) == 1 and isinstance(targets[0], ast.Name):
+            tkey = None
+            if len(targets) == 1 and isinstance(targets[0], ast.Name):
+                tkey = targets[0].id
+            elif len(targets) == 1 and isinstance(targets[0], ast.Attribute) and isinstance(targets[0].value, ast.Name):
+                tkey = f"{targets[0].value.id}.{targets[0].attr}"  # `tree.transpiled = self._helper(tree)`
+            if isinstance(v, ast.Call) and depth < self.inline_depth and tkey is not None:
                 h = self.helper(v)
                 if h is not None:
                     b = self.bind_args(h[0], v, h[1], env)
@@ -284,7 +289,7 @@ class PathWalker:
                                     yield conds + p.conds, env, calls + p.calls, "raise", p.value, p.node
                                 else:
                                     e2 = dict(env)
-                                    e2[targets[0].id] = p.value if p.value is not None else ast.Constant(value=None)
+                                    e2[tkey] = p.value if p.value is not None else ast.Constant(value=None)
                                     yield from cont(conds + p.conds, e2, calls + p.calls)
                             return
             sv = subst(value, env)
